@@ -318,16 +318,19 @@ Definition hyp_summary (ws : list (list int)) : Z * Z :=
   let rs := flat_map (fun c => map (prof_hyp (c_fnh c)) (c_profs c)) (decoded rd_case ws) in
   (Z.of_nat (length (filter (fun r => negb (Z.eqb r 0)) rs)), Z.of_nat (length (filter (Z.eqb 1) rs))).
 
-(* everything the check prints, decoding once: (decode errors, mismatches, spec results, hypothesis summary) *)
-Definition all_results (ws : list (list int)) : list Z * list Z * list (Z * Z) * (Z * Z * Z) :=
+(* everything the check prints, decoding once: (decode errors, mismatches, spec results, hypothesis summary,
+   ids of the cases holding a profile for which the hypothesis of tree_conserves fails under the real hash) *)
+Definition all_results (ws : list (list int)) : list Z * list Z * list (Z * Z) * (Z * Z * Z) * list Z :=
   let cs := decoded rd_case ws in
-  let rs := flat_map (fun c => map (prof_hyp (c_fnh c)) (c_profs c)) cs in
+  let hs := map (fun c => (c_id c, map (prof_hyp (c_fnh c)) (c_profs c))) cs in
+  let rs := flat_map snd hs in
   (decode_errors ws,
    map c_id (filter case_mismatch cs),
    filter (fun x => negb (Z.eqb (snd x) 0)) (map (fun c => (c_id c, case_spec c)) cs),
    (Z.of_nat (length (filter (fun r => negb (Z.eqb r 0)) rs)), Z.of_nat (length (filter (Z.eqb 1) rs)),
     (* cases whose OBSERVED merged tree meets the hypotheses of levels_nest (so the nesting oracle applies) *)
-    Z.of_nat (length (filter (fun c => tree_regular (mc_tree (c_merge c)) && negb (is_nil (mc_tree (c_merge c)))) cs)))).
+    Z.of_nat (length (filter (fun c => tree_regular (mc_tree (c_merge c)) && negb (is_nil (mc_tree (c_merge c)))) cs))),
+   map fst (filter (fun x => existsb (Z.eqb 2) (snd x)) hs)).
 
 Definition mismatches (ws : list (list int)) : list Z := map c_id (filter case_mismatch (decoded rd_case ws)).
 Definition spec_results (ws : list (list int)) : list (Z * Z) :=
